@@ -28,3 +28,6 @@ def check(ctx, rep):
     S.rule_D2(ctx, rep)
     S.rule_D3(ctx, rep, methods=('flush',))
     S.rule_forwarding_impls(ctx, rep, 'F1', methods=('flush',))
+    # what remains is written on drop - through the socket as the caller configured it (blocking mode, no connect)
+    from . import sockets as K
+    K.rule_socket_untouched(ctx, rep, 'S1')
